@@ -19,6 +19,7 @@ use std::{io, path};
 use async_trait::async_trait;
 use bytes::Bytes;
 use tempfile::TempDir;
+use tokio::io::AsyncWriteExt;
 use tokio::sync::Semaphore;
 use tracing::{error, trace, warn};
 use url::Url;
@@ -100,7 +101,34 @@ impl super::Protocol for Protocol {
                 options.create(true).truncate(true);
             }
         }
-        if let Err(err) = tokio::fs::write(&full_path, content).await {
+        let mut file = match options.open(&full_path).await {
+            Ok(file) => file,
+            Err(err)
+                if write_mode == WriteMode::CreateNew
+                    && err.kind() == io::ErrorKind::AlreadyExists
+                    && is_empty_file(&full_path).await =>
+            {
+                // An interrupted write can leave an empty file behind. It holds no content, so
+                // completing it is not overwriting anything.
+                tokio::fs::OpenOptions::new()
+                    .write(true)
+                    .open(&full_path)
+                    .await
+                    .map_err(|err| super::Error::io_error(&full_path, err))?
+            }
+            Err(err) => {
+                // Nothing was created by this call, so there is nothing to clean up; in
+                // particular an existing file must be left alone.
+                error!("Failed to open {full_path:?} for write: {err:?}");
+                return Err(super::Error::io_error(&full_path, err));
+            }
+        };
+        let result = match file.write_all(content).await {
+            Ok(()) => file.flush().await,
+            Err(err) => Err(err),
+        };
+        drop(file);
+        if let Err(err) = result {
             error!("Failed to write {full_path:?}: {err:?}");
             if let Err(err2) = tokio::fs::remove_file(&full_path).await {
                 error!("Failed to remove {full_path:?}: {err2:?}");
@@ -180,6 +208,13 @@ impl super::Protocol for Protocol {
     fn local_path(&self) -> Option<PathBuf> {
         Some(self.path.clone())
     }
+}
+
+/// True if the path is an existing, zero-length, regular file.
+async fn is_empty_file(path: &Path) -> bool {
+    tokio::fs::symlink_metadata(path)
+        .await
+        .is_ok_and(|m| m.is_file() && m.len() == 0)
 }
 
 async fn collect_tokio_dir_entry(dir_entry: tokio::fs::DirEntry) -> Option<DirEntry> {
